@@ -20,14 +20,11 @@ def known_witnesses(ctx, prop):
                 continue
             code = (
                 "import sys, json; sys.path.insert(0, %r); import nv; nv.setup_env(jit=False)\n"
-                "import props_sweep\n"
-                "w = json.loads(%r)\n"
-                "st, out = nv.impl_prop(w['alg'], w['params'], [tuple(d) for d in w['box']])\n"
-                "bad = props_sweep.check_case(w['alg'], w['params'], [tuple(d) for d in w['box']], st, out, set(w['kinds']))\n"
-                "print(json.dumps(bad))\n" % (os.path.dirname(os.path.abspath(nv.__file__)), json.dumps(w))
+                "import known\n"
+                "print(json.dumps(known.witness_fails(json.loads(%r))))\n" % (os.path.dirname(os.path.abspath(nv.__file__)), json.dumps(w))
             )
             try:
-                r = subprocess.run([sys.executable, "-c", code], capture_output=True, text=True, timeout=20)
+                r = subprocess.run([sys.executable, "-c", code], capture_output=True, text=True, timeout=30)
                 if r.returncode != 0 or json.loads(r.stdout.strip().splitlines()[-1]):
                     still += 1
             except subprocess.TimeoutExpired:
